@@ -442,10 +442,22 @@ pub fn judge_c03(c: &FCase, o: &Outcome, profile: &str) -> Result<(), Fail> {
             }
             Ok(())
         }
-        Outcome::Panic { msg, loc, .. } => Err(Fail::new(
-            format!("{}|panic@{}", entry, loc),
-            format!("factor({}, {}) panicked at {} [{}]: {}", c.n, c.algo, loc, profile, msg),
-        )),
+        Outcome::Panic { msg, loc, .. } => {
+            // The sieves' explicit give-up `panic!("Internal error: not enough smooth numbers ...")` is keyed by
+            // file and message (not by line), and by whether the caller forced the double-large-prime variation:
+            // forcing it on inputs far below the size it is meant for starves SIQS of polynomials (known finding),
+            // the same panic under the default preferences is not covered by that entry.
+            let site = if msg.starts_with("Internal error: not enough smooth numbers") {
+                format!("{}|internal-error-not-enough-smooth-numbers", loc.split(':').next().unwrap_or(loc))
+            } else {
+                loc.clone()
+            };
+            let forced = if c.prefs.use_double == Some(true) { "|use_double=true" } else { "" };
+            Err(Fail::new(
+                format!("{}|panic@{}{}", entry, site, forced),
+                format!("factor({}, {}, use_double={:?}) panicked at {} [{}]: {}", c.n, c.algo, c.prefs.use_double, loc, profile, msg),
+            ))
+        }
         Outcome::Died(s) => Err(Fail::new(
             format!("{}|process-died", entry),
             format!("factor({}, {}) killed the process [{}]: {}", c.n, c.algo, profile, s),
